@@ -133,3 +133,191 @@ Proof.
     rewrite Hlr. rewrite Nat2Z.inj_add, Z2Nat.id, Z.pow_add_r by lia. fold PH.
     rewrite Nat2Z.inj_succ, Z.pow_succ_r by lia. fold PL. nia.
 Qed.
+
+(** ** the mask flip *)
+Lemma add_disjoint_lxor x y s : 0 <= s -> x mod 2 ^ s = 0 -> 0 <= y < 2 ^ s -> x + y = Z.lxor x y.
+Proof. intros Hs Hx Hy. apply Z.add_nocarry_lxor. apply (land_disjoint x y s); assumption. Qed.
+
+Lemma lxor_run d jt j : is_tz d jt -> 0 <= j <= jt ->
+  Z.lxor d (2 ^ (jt + 1) - 2 ^ j) = d - 2 ^ j.
+Proof.
+  intros T Hj. destruct (is_tz_decomp d jt T) as [q Eq].
+  assert (Hjt : 0 <= jt) by lia.
+  assert (E2 : 2 ^ (jt + 1) = 2 * 2 ^ jt) by (rewrite Z.pow_add_r by lia; change (2 ^ 1) with 2; ring).
+  set (P := 2 ^ jt) in *. assert (HP : 0 < P) by (apply Z.pow_pos_nonneg; lia).
+  assert (Hpj : 0 < 2 ^ j <= P) by (split; [apply Z.pow_pos_nonneg; lia|apply Z.pow_le_mono_r; lia]).
+  set (hi := 2 ^ (jt + 1) * q). set (r := P - 2 ^ j).
+  assert (Hhi1 : hi mod 2 ^ (jt + 1) = 0) by (unfold hi; rewrite Z.mul_comm; apply Z.mod_mul; lia).
+  assert (Ed : d = Z.lxor hi P).
+  { rewrite <- (add_disjoint_lxor hi P (jt + 1)); [unfold hi; lia|lia|exact Hhi1|lia]. }
+  assert (EW : 2 ^ (jt + 1) - 2 ^ j = Z.lxor P r).
+  { rewrite <- (add_disjoint_lxor P r jt); [unfold r; lia|lia|apply Z.mod_same; lia|unfold r; lia]. }
+  assert (Er : hi + r = Z.lxor hi r).
+  { apply (add_disjoint_lxor hi r (jt + 1)); [lia|exact Hhi1|unfold r; lia]. }
+  rewrite EW. rewrite Ed at 1. rewrite Z.lxor_assoc, <- (Z.lxor_assoc P P r), Z.lxor_nilpotent, Z.lxor_0_l.
+  rewrite <- Er. unfold hi, r. lia.
+Qed.
+
+Lemma mask_lo_val j : 0 <= j < 64 -> ((B - 1) * 2 ^ j) mod B = B - 2 ^ j.
+Proof.
+  intros Hj. assert (0 < 2 ^ j) by (apply Z.pow_pos_nonneg; lia).
+  assert (2 ^ j < B) by (rewrite B_as_pow2; apply Z.pow_lt_mono_r; lia).
+  symmetry. apply Z.mod_unique_pos with (2 ^ j - 1); lia.
+Qed.
+Lemma mask_hi_val jt : 0 <= jt < 64 -> (B - 1) / 2 ^ (64 - 1 - jt) = 2 ^ (jt + 1) - 1.
+Proof.
+  intros Hj. set (T := 2 ^ (64 - 1 - jt)). assert (0 < T) by (apply Z.pow_pos_nonneg; lia).
+  assert (E : B = 2 ^ (jt + 1) * T).
+  { unfold T. rewrite <- Z.pow_add_r by lia. rewrite B_as_pow2. f_equal. lia. }
+  symmetry. apply Z.div_unique with (T - 1); [lia|]. rewrite E. ring.
+Qed.
+Lemma mask_and_val j jt : 0 <= j <= jt -> jt < 64 ->
+  Z.land (B - 2 ^ j) (2 ^ (jt + 1) - 1) = 2 ^ (jt + 1) - 2 ^ j.
+Proof.
+  intros Hj Hjt. change (2 ^ (jt + 1) - 1) with (Z.pred (2 ^ (jt + 1))). rewrite <- Z.ones_equiv.
+  rewrite Z.land_ones by lia. set (T := 2 ^ (64 - 1 - jt)). assert (0 < T) by (apply Z.pow_pos_nonneg; lia).
+  assert (E : B = 2 ^ (jt + 1) * T).
+  { unfold T. rewrite <- Z.pow_add_r by lia. rewrite B_as_pow2. f_equal. lia. }
+  assert (0 < 2 ^ j) by (apply Z.pow_pos_nonneg; lia).
+  assert (2 ^ j <= 2 ^ (jt + 1)) by (apply Z.pow_le_mono_r; lia).
+  symmetry. apply Z.mod_unique_pos with (T - 1); [lia|]. rewrite E. ring.
+Qed.
+
+Lemma zeros_split n k : (k < n)%nat -> zeros n = zeros k ++ 0 :: zeros (n - k - 1).
+Proof.
+  intros H. unfold zeros. replace n with (k + S (n - k - 1))%nat at 1 by lia.
+  rewrite repeat_app. reflexivity.
+Qed.
+Lemma map_const_zeros (c : Z) n : map (fun _ => c) (zeros n) = repeat c n.
+Proof. induction n; cbn; [reflexivity|]. f_equal. exact IHn. Qed.
+Lemma val_repeat_max n : val (repeat (B - 1) n) = B ^ Z.of_nat n - 1.
+Proof.
+  induction n as [|n IH]; [reflexivity|]. cbn [repeat]. rewrite val_cons, IH, B_pow_S. ring.
+Qed.
+Lemma wf_repeat_max n : wf (repeat (B - 1) n).
+Proof. apply Forall_forall. intros x Hx. apply repeat_spec in Hx. subst. unfold digit. pose proof B_gt1. lia. Qed.
+
+Theorem snb_set_below data bit : canon data -> data <> [] -> 0 <= bit < ztz (val data) ->
+  exists d, set_negative_bit bits_default data bit true = Ret d /\ wf d /\
+            - val d = Z.setbit (- val data) bit.
+Proof.
+  intros Hc Hn Hb. pose proof (canon_val_pos _ Hc Hn) as P. pose proof (proj1 Hc) as Hw.
+  pose proof (tz_some _ Hw P) as Et. set (tz := ztz (val data)) in *.
+  pose proof (utrailing_zeros_meaning _ _ Hw Et) as T. pose proof (tz_bound _ _ Hw Et) as Bz.
+  destruct (tz_struct _ _ Hw Et) as (d & l2 & Ed & Hk & Hd & Hd0 & Td & Hjt & Hl2).
+  unfold set_negative_bit. cbn [bp_snb_hi bp_snb_gt bp_snb_eq bp_snb_lt bits_default cmp_eval negb].
+  destruct (Z.geb_spec bit (64 * zlen data)); [lia|]. rewrite Et.
+  destruct (Z.gtb_spec bit tz); [lia|]. destruct (Z.eqb_spec bit tz) as [|Nbt]; [lia|].
+  destruct (Z.ltb_spec bit tz); [|lia]. cbn [andb].
+  set (hi := tz / 64) in *. set (jt := tz mod 64) in *.
+  set (lo := bit / 64). set (j := bit mod 64).
+  assert (Etz : tz = 64 * hi + jt) by (unfold hi, jt; lia).
+  assert (Ebit : bit = 64 * lo + j /\ 0 <= j < 64 /\ 0 <= lo <= hi) by (unfold lo, j, hi; lia).
+  destruct Ebit as (Ebit & Hj & Hlo). clearbody hi jt lo j. clearbody tz.
+  rewrite mask_lo_val by lia. rewrite mask_hi_val by lia.
+  assert (Hbitf : Z.testbit (- val data) bit = false).
+  { rewrite (testbit_neg _ _ bit T ltac:(lia)). destruct (Z.ltb_spec bit tz); [reflexivity|lia]. }
+  rewrite setbit_clear by (lia || exact Hbitf).
+  assert (Hvd : val data = B ^ hi * (d + B * val l2)).
+  { rewrite Ed. rewrite val_app, val_zeros, length_zeros, Z2Nat.id, val_cons by lia. ring. }
+  assert (Hpj : 0 < 2 ^ j) by (apply Z.pow_pos_nonneg; lia).
+  assert (Hpjt : 0 < 2 ^ jt) by (apply Z.pow_pos_nonneg; lia).
+  assert (Hdjt : 2 ^ jt <= d).
+  { destruct Td as (_ & Tb & _). destruct (Z.le_gt_cases (2 ^ jt) d); [assumption|].
+    rewrite (testbit_small d jt jt) in Tb by (unfold digit in *; lia). discriminate. }
+  destruct (Z.eqb_spec lo hi) as [Elh|Nlh].
+  - (* same digit *)
+    subst lo. assert (Hjlt : j < jt) by lia.
+    rewrite mask_and_val by lia.
+    assert (Eu : upd data hi (fun d0 => Z.lxor d0 (2 ^ (jt + 1) - 2 ^ j)) 754
+                 = Ret (zeros (Z.to_nat hi) ++ Z.lxor d (2 ^ (jt + 1) - 2 ^ j) :: l2)).
+    { rewrite Ed at 1. replace hi with (zlen (zeros (Z.to_nat hi))) at 2 by (unfold zlen; rewrite length_zeros; lia).
+      apply (upd_mid (zeros (Z.to_nat hi)) d l2 (fun d0 => Z.lxor d0 (2 ^ (jt + 1) - 2 ^ j)) 754). }
+    rewrite Eu. rewrite lxor_run by (auto; lia).
+    assert (2 ^ j <= 2 ^ jt) by (apply Z.pow_le_mono_r; lia).
+    eexists. split; [reflexivity|]. split.
+    + apply wf_app; split; [apply wf_zeros|]. apply wf_cons; split; [unfold digit in *; lia|exact Hl2].
+    + rewrite val_app, val_zeros, length_zeros, Z2Nat.id, val_cons by lia. rewrite Hvd, Ebit, pow2_index by lia.
+      ring.
+  - (* several digits *)
+    assert (Hlt : lo < hi) by lia.
+    set (ln := Z.to_nat lo). set (n := (Z.to_nat hi - ln - 1)%nat).
+    assert (Ez : zeros (Z.to_nat hi) = zeros ln ++ 0 :: zeros n) by (apply zeros_split; unfold ln; lia).
+    assert (Hn1 : Z.of_nat ln = lo) by (unfold ln; lia).
+    assert (Hn2 : Z.of_nat n = hi - lo - 1) by (unfold n, ln; lia).
+    assert (E1 : upd data lo (fun _ => B - 2 ^ j) 755 = Ret (zeros ln ++ (B - 2 ^ j) :: zeros n ++ d :: l2)).
+    { rewrite Ed at 1. rewrite Ez, <- app_assoc. cbn [app].
+      replace lo with (zlen (zeros ln)) at 1 by (unfold zlen; rewrite length_zeros; lia).
+      apply (upd_mid (zeros ln) 0 (zeros n ++ d :: l2) (fun _ => B - 2 ^ j) 755). }
+    rewrite E1. cbn [bind]. destruct (Z.leb_spec (lo + 1) hi); [|lia]. cbn [assert_ bind].
+    set (d1 := zeros ln ++ (B - 2 ^ j) :: zeros n ++ d :: l2).
+    assert (L1 : Z.to_nat (lo + 1) = S ln) by (unfold ln; lia).
+    assert (L2 : Z.to_nat hi = (S ln + n)%nat) by (unfold n, ln; lia).
+    assert (F1 : firstn (Z.to_nat (lo + 1)) d1 = zeros ln ++ [B - 2 ^ j]).
+    { rewrite L1. unfold d1. replace (zeros ln ++ (B - 2 ^ j) :: zeros n ++ d :: l2)
+        with ((zeros ln ++ [B - 2 ^ j]) ++ zeros n ++ d :: l2) by (rewrite <- app_assoc; reflexivity).
+      apply firstn_app_exact. rewrite app_length, length_zeros. cbn; lia. }
+    assert (S1 : skipn (Z.to_nat (lo + 1)) d1 = zeros n ++ d :: l2).
+    { rewrite L1. unfold d1. replace (zeros ln ++ (B - 2 ^ j) :: zeros n ++ d :: l2)
+        with ((zeros ln ++ [B - 2 ^ j]) ++ zeros n ++ d :: l2) by (rewrite <- app_assoc; reflexivity).
+      apply skipn_app_exact. rewrite app_length, length_zeros. cbn; lia. }
+    assert (S2 : skipn (Z.to_nat hi) d1 = d :: l2).
+    { rewrite L2. unfold d1. replace (zeros ln ++ (B - 2 ^ j) :: zeros n ++ d :: l2)
+        with ((zeros ln ++ [B - 2 ^ j] ++ zeros n) ++ d :: l2) by (rewrite <- !app_assoc; reflexivity).
+      apply skipn_app_exact. rewrite !app_length, !length_zeros. cbn; lia. }
+    rewrite F1, S1, S2.
+    replace (Z.to_nat hi - Z.to_nat (lo + 1))%nat with n by (unfold n, ln; lia).
+    rewrite firstn_zeros_app, map_const_zeros.
+    set (pre := zeros ln ++ (B - 2 ^ j) :: repeat (B - 1) n).
+    assert (Ep : (zeros ln ++ [B - 2 ^ j]) ++ repeat (B - 1) n ++ d :: l2 = pre ++ d :: l2).
+    { unfold pre. rewrite <- !app_assoc. reflexivity. }
+    rewrite Ep.
+    assert (Lp : zlen pre = hi).
+    { unfold zlen, pre. rewrite app_length, length_zeros. cbn [length]. rewrite repeat_length. lia. }
+    assert (Eu2 : upd (pre ++ d :: l2) hi (fun d2 => Z.lxor d2 (2 ^ (jt + 1) - 1)) 757
+                  = Ret (pre ++ Z.lxor d (2 ^ (jt + 1) - 1) :: l2)).
+    { rewrite <- Lp. apply (upd_mid pre d l2 (fun d2 => Z.lxor d2 (2 ^ (jt + 1) - 1)) 757). }
+    rewrite Eu2.
+    change (2 ^ (jt + 1) - 1) with (2 ^ (jt + 1) - 2 ^ 0). rewrite lxor_run by (auto; lia).
+    change (2 ^ 0) with 1.
+    assert (Hwp : wf pre).
+    { unfold pre. apply wf_app; split; [apply wf_zeros|]. apply wf_cons; split; [|apply wf_repeat_max].
+      unfold digit. assert (2 ^ j < B) by (rewrite B_as_pow2; apply Z.pow_lt_mono_r; lia). lia. }
+    eexists. split; [reflexivity|]. split.
+    + apply wf_app; split; [exact Hwp|]. apply wf_cons; split; [unfold digit in *; lia|exact Hl2].
+    + rewrite val_app. fold (zlen pre). rewrite Lp, val_cons.
+      unfold pre. rewrite val_app, val_zeros, length_zeros, val_cons, val_repeat_max, Hn1, Hn2.
+      rewrite Hvd, Ebit, pow2_index by lia.
+      assert (EH : B ^ hi = B ^ lo * B * B ^ (hi - lo - 1)).
+      { replace hi with (lo + 1 + (hi - lo - 1)) at 1 by ring. rewrite !Z.pow_add_r by lia. rewrite Z.pow_1_r. ring. }
+      rewrite EH. set (PL := B ^ lo). set (PN := B ^ (hi - lo - 1)). ring.
+Qed.
+
+(** ** all five arms together *)
+Theorem set_negative_bit_spec p data bit value :
+  bits_ok p = true -> canon data -> data <> [] -> vec_ok data -> 0 <= bit < B ->
+  exists d, set_negative_bit p data bit value = Ret d /\ wf d /\
+            - val d = if value then Z.setbit (- val data) bit else Z.clearbit (- val data) bit.
+Proof.
+  intros Hp Hc Hn Hv Hb.
+  destruct (Z.lt_trichotomy bit (ztz (val data))) as [Hlt|[Heq|Hgt]].
+  - destruct value.
+    + apply bits_ok_inv in Hp. subst p. apply snb_set_below; auto. lia.
+    + apply set_negative_bit_partial; auto. unfold snb_covered. right; right; right. auto.
+  - destruct value.
+    + apply set_negative_bit_partial; auto. unfold snb_covered. right; right; left. auto.
+    + apply bits_ok_inv in Hp. subst p. rewrite Heq. apply snb_clear_lowest; auto.
+  - apply set_negative_bit_partial; auto. unfold snb_covered. right; left. lia.
+Qed.
+
+Theorem iset_bit_spec p x bit value :
+  bits_ok p = true -> icanon x -> vec_ok (mag x) -> 0 <= bit < B ->
+  iset_bit p x bit value = Ret (ienc (if value then Z.setbit (ival x) bit else Z.clearbit (ival x) bit)).
+Proof.
+  intros Hp Hx Hv Hb. destruct (sg x) eqn:Es.
+  - unfold iset_bit. isplit3 x Hx; try congruence. rewrite S, V.
+    destruct (set_negative_bit_spec p (mag x) bit value Hp (proj1 Hx) M Hv Hb) as (d & E & Hd & Vd).
+    rewrite E. cbn [bind]. f_equal. rewrite inormalize_minus by exact Hd. f_equal. exact Vd.
+  - apply iset_bit_nonneg_spec; auto. congruence.
+  - apply iset_bit_nonneg_spec; auto. congruence.
+Qed.
